@@ -1,6 +1,674 @@
+/-
+  C19 — property theorems (DESIGN.md §6 C19 [T1]).  Helper lemmas: LpProofs/C19/*.lean.
+  Sections: 1 workload, 2 range, 3 linear/log space, 4 closest location, 5 list templates,
+  6 statistics laws.
+-/
 import LpModel.C19
+import LpProofs.C19.Workload
+import LpProofs.C19.Range
+import LpProofs.C19.Closest
+import LpProofs.C19.Stats
+import Mathlib.Tactic.Ring
+import Mathlib.Tactic.Linarith
+import Mathlib.Tactic.FieldSimp
+import Mathlib.Tactic.Positivity
 namespace Lp.C19
 
-theorem combine_eq_append {α : Type} [DecidableEq α] (a b : List α) : combine a b = a ++ b := rfl
+/-! ## 1. Workload_Distribution -/
+
+/-- closed form: entry `j` is `j·q + max(0, j − (workers − r))`, `q = tasks / workers`, `r = tasks % workers`. -/
+theorem workload_closed_form (w t : Nat) (hw : 1 ≤ w) :
+    ∃ l, workload w t = some l ∧ l.length = w + 1 ∧
+      ∀ j, j ≤ w → l[j]? = some (j * (t / w) + (j - (w - t % w))) := by
+  refine ⟨_, by unfold workload; rw [if_neg (by omega)], ?_, ?_⟩
+  · unfold workloadAdd; rw [workloadStep_length]; simp [workloadBase]
+  · intro j hj
+    have hr : t % w ≤ w := Nat.le_of_lt (Nat.mod_lt _ (by omega))
+    rw [workloadAdd_getElem? w _ hr _ j hj]
+    simp [workloadBase, show j < w + 1 by omega]
+
+/-- for all `workers ≥ 1`, `tasks`: `workers+1` entries, first `0`, last `tasks`, and the share of
+    worker `i` is `q`, plus one exactly for the last `r` workers (`i ≥ workers − r`). -/
+theorem workload_spec (w t : Nat) (hw : 1 ≤ w) :
+    ∃ l, workload w t = some l ∧ l.length = w + 1 ∧ l[0]? = some 0 ∧ l[w]? = some t ∧
+      ∀ i, i < w → ∃ a b, l[i]? = some a ∧ l[i + 1]? = some b ∧
+        b = a + t / w + (if w - t % w ≤ i then 1 else 0) := by
+  obtain ⟨l, h1, h2, h3⟩ := workload_closed_form w t hw
+  have hr : t % w < w := Nat.mod_lt _ (by omega)
+  refine ⟨l, h1, h2, ?_, ?_, ?_⟩
+  · rw [h3 0 (by omega)]; simp
+  · rw [h3 w (by omega)]
+    congr 1
+    have := Nat.div_add_mod t w
+    have e : w - (w - t % w) = t % w := by omega
+    rw [e]; linarith
+  · intro i hi
+    refine ⟨_, _, h3 i (by omega), h3 (i + 1) (by omega), ?_⟩
+    rw [Nat.succ_mul]
+    split <;> omega
+
+/-- consequences: the index list is non-decreasing and exactly `tasks % workers` shares equal `q+1`. -/
+theorem workload_monotone_count (w t : Nat) (hw : 1 ≤ w) :
+    ∃ l, workload w t = some l ∧ l.Pairwise (· ≤ ·) ∧
+      ((List.range w).filter
+        (fun i => decide (l[i + 1]?.getD 0 = l[i]?.getD 0 + t / w + 1))).length = t % w := by
+  obtain ⟨l, h1, h2, h3⟩ := workload_closed_form w t hw
+  have hr : t % w < w := Nat.mod_lt _ (by omega)
+  refine ⟨l, h1, ?_, ?_⟩
+  · rw [List.pairwise_iff_getElem]
+    intro i j hi hj hij
+    have ei := h3 i (by omega)
+    have ej := h3 j (by omega)
+    rw [List.getElem?_eq_getElem hi] at ei
+    rw [List.getElem?_eq_getElem hj] at ej
+    injection ei with ei; injection ej with ej
+    rw [ei, ej]
+    have : i * (t / w) ≤ j * (t / w) := Nat.mul_le_mul_right _ (by omega)
+    omega
+  · have : (List.range w).filter (fun i => decide (l[i + 1]?.getD 0 = l[i]?.getD 0 + t / w + 1)) =
+        (List.range w).filter (fun i => decide (w - t % w ≤ i)) := by
+      apply List.filter_congr
+      intro i hi
+      rw [List.mem_range] at hi
+      rw [h3 i (by omega), h3 (i + 1) (by omega)]
+      simp only [Option.getD_some, Nat.succ_mul, decide_eq_decide]
+      omega
+    rw [this, filter_ge_range_length]; omega
+
+example : workload 4 10 = some [0, 2, 4, 7, 10] := by decide
+
+/-! ## 2. Range -/
+
+/-- `step ≥ 1`: the half-open range, ascending if `mn < mx`, descending if `mn > mx`, empty if equal. -/
+theorem range_spec (mn mx step : Int) (hs : 1 ≤ step) :
+    ∃ l, range mn mx step = some l ∧
+      (mn < mx → ∃ n : Nat, l = (List.range n).map (fun (k : Nat) => mn + (k : Int) * step) ∧
+          (∀ k : Nat, k < n → mn + (k : Int) * step < mx) ∧ mx ≤ mn + (n : Int) * step) ∧
+      (mn > mx → ∃ n : Nat, l = (List.range n).map (fun (k : Nat) => mn - (k : Int) * step) ∧
+          (∀ k : Nat, k < n → mn - (k : Int) * step > mx) ∧ mx ≥ mn - (n : Int) * step) ∧
+      (mn = mx → l = []) := by
+  unfold range
+  by_cases hgt : mn > mx
+  · rw [if_pos ⟨hgt, by omega⟩]
+    refine ⟨_, rfl, by intro h; omega, fun _ => rangeDesc_spec mx step hs _ mn (le_refl _), by intro h; omega⟩
+  · rw [if_neg (by omega), if_pos (by omega)]
+    refine ⟨_, rfl, fun _ => rangeAsc_spec mx step hs _ mn (le_refl _), by intro h; omega, ?_⟩
+    intro h; subst h; simp [rangeAsc]
+
+/-- `step ≤ 0`: the ascending loop `for (i = mn; i < mx; i += step)` never terminates when
+    `mn < mx` (`none`); otherwise its condition fails at once. -/
+theorem range_nonpositive_step (mn mx step : Int) (hs : step ≤ 0) :
+    (mn < mx → range mn mx step = none) ∧ (mx ≤ mn → range mn mx step = some []) := by
+  unfold range
+  constructor
+  · intro h; rw [if_neg (by omega), if_neg (by omega), if_pos h]
+  · intro h; rw [if_neg (by omega), if_neg (by omega), if_neg (by omega)]
+
+example : range 2 9 3 = some [2, 5, 8] := by decide
+example : range 9 2 3 = some [9, 6, 3] := by decide
+
+/-- `Range(max)`: `0, 1, …, max-1` for `max ≥ 0`; as coded a negative `max` counts down
+    `0, -1, …, max+1`. -/
+theorem range1_spec (mx : Int) :
+    (0 ≤ mx → range1 mx = some ((List.range mx.toNat).map (fun (k : Nat) => (k : Int)))) ∧
+    (mx < 0 → range1 mx = some ((List.range (-mx).toNat).map (fun (k : Nat) => -(k : Int)))) := by
+  obtain ⟨l, h1, hasc, hdesc, heq⟩ := range_spec 0 mx 1 (le_refl _)
+  unfold range1
+  rw [h1]
+  constructor
+  · intro h0
+    rcases Int.lt_or_eq_of_le h0 with hlt | rfl
+    · obtain ⟨n, rfl, h2, h3⟩ := hasc hlt
+      have : n = mx.toNat := by
+        cases n with
+        | zero => omega
+        | succ n => have := h2 n (by omega); omega
+      subst this
+      congr 1; apply List.map_congr_left; intro k _; ring
+    · rw [heq rfl]; rfl
+  · intro hneg
+    obtain ⟨n, rfl, h2, h3⟩ := hdesc hneg
+    have : n = (-mx).toNat := by
+      cases n with
+      | zero => omega
+      | succ n => have := h2 n (by omega); omega
+    subst this
+    congr 1; apply List.map_congr_left; intro k _; ring
+
+example : range1 4 = some [0, 1, 2, 3] := by decide
+
+/-! ## 3. Linear_Space, Log_Space -/
+
+/-- degenerate requests (`steps < 2` or `min = max`) return `[min]`. -/
+theorem linearSpace_degenerate (mn mx : Rat) (steps : Nat) (h : steps < 2 ∨ mn = mx) :
+    linearSpace mn mx steps = [mn] := by
+  unfold linearSpace; rw [if_pos h]
+
+/-- element `i` is `min + i·(max−min)/(steps−1)`. -/
+theorem linearSpace_getElem? (mn mx : Rat) (steps : Nat) (hs : 2 ≤ steps) (hne : mn ≠ mx)
+    (i : Nat) (hi : i < steps) :
+    (linearSpace mn mx steps)[i]? = some (mn + (i : Rat) * ((mx - mn) / ((steps : Rat) - 1))) := by
+  unfold linearSpace
+  rw [if_neg (by rintro (h | h); omega; exact hne h)]
+  simp [hi]
+
+/-- `steps ≥ 2`, `min ≠ max`: `steps` points, first `= min`, last `= max` exactly, equal spacing,
+    strictly monotone in the direction of `max − min`. -/
+theorem linearSpace_spec (mn mx : Rat) (steps : Nat) (hs : 2 ≤ steps) (hne : mn ≠ mx) :
+    let l := linearSpace mn mx steps
+    let d := (mx - mn) / ((steps : Rat) - 1)
+    l.length = steps ∧ l[0]? = some mn ∧ l[steps - 1]? = some mx ∧
+    (∀ i, i < steps → l[i]? = some (mn + (i : Rat) * d)) ∧
+    (∀ i, i + 1 < steps → ∃ a b, l[i]? = some a ∧ l[i + 1]? = some b ∧ b - a = d) ∧
+    (mn < mx → l.Pairwise (· < ·)) ∧ (mx < mn → l.Pairwise (· > ·)) := by
+  intro l d
+  have hcond : ¬ (steps < 2 ∨ mn = mx) := by rintro (h | h); omega; exact hne h
+  have hl : l = (List.range steps).map (fun (i : Nat) => mn + (i : Rat) * d) := by
+    simp only [l, d]; unfold linearSpace; rw [if_neg hcond]
+  have hget : ∀ i, i < steps → l[i]? = some (mn + (i : Rat) * d) :=
+    fun i hi => linearSpace_getElem? mn mx steps hs hne i hi
+  have hs1 : ((steps : Rat) - 1) ≠ 0 := by
+    have : (2 : Rat) ≤ (steps : Rat) := by exact_mod_cast hs
+    intro h; linarith
+  have hs1pos : (0 : Rat) < (steps : Rat) - 1 := by
+    have : (2 : Rat) ≤ (steps : Rat) := by exact_mod_cast hs
+    linarith
+  refine ⟨by rw [hl]; simp, ?_, ?_, hget, ?_, ?_, ?_⟩
+  · rw [hget 0 (by omega)]; simp
+  · rw [hget (steps - 1) (by omega)]
+    congr 1
+    have : ((steps - 1 : Nat) : Rat) = (steps : Rat) - 1 := by
+      rw [Nat.cast_sub (by omega)]; simp
+    rw [this]; simp only [d]; field_simp; ring
+  · intro i hi
+    refine ⟨_, _, hget i (by omega), hget (i + 1) hi, ?_⟩
+    push_cast; ring
+  · intro hlt
+    have hd : 0 < d := div_pos (by linarith) hs1pos
+    rw [hl, List.pairwise_map]
+    refine List.Pairwise.imp ?_ List.pairwise_lt_range
+    intro a b hab
+    have : (a : Rat) < (b : Rat) := by exact_mod_cast hab
+    nlinarith
+  · intro hlt
+    have hd : d < 0 := div_neg_of_neg_of_pos (by linarith) hs1pos
+    rw [hl, List.pairwise_map]
+    refine List.Pairwise.imp ?_ List.pairwise_lt_range
+    intro a b hab
+    have : (a : Rat) < (b : Rat) := by exact_mod_cast hab
+    show mn + (a : Rat) * d > mn + (b : Rat) * d
+    nlinarith
+
+example : linearSpace 0 1 3 = [0, 1/2, 1] := by decide +kernel
+
+/-- degenerate requests return `[min]`. -/
+theorem logSpace_degenerate (exp log : Rat → Rat) (mn mx : Rat) (steps : Nat)
+    (h : steps < 2 ∨ mn = mx) : logSpace exp log mn mx steps = [mn] := by
+  unfold logSpace; rw [if_pos h]
+
+/-- `exp`/`log` are parameters; only the three identities the code relies on are assumed, at
+    the two end points (over `Rat` they cannot hold for all arguments). -/
+theorem logSpace_spec (exp log : Rat → Rat) (mn mx : Rat) (steps : Nat) (hs : 2 ≤ steps)
+    (hne : mn ≠ mx)
+    (hmn : exp (log mn) = mn) (hmx : exp (log mx) = mx)
+    (hq : log (mx / mn) = log mx - log mn) :
+    let l := logSpace exp log mn mx steps
+    let d := (log mx - log mn) / ((steps : Rat) - 1)
+    l.length = steps ∧ l[0]? = some mn ∧ l[steps - 1]? = some mx ∧
+    (∀ i, i < steps → l[i]? = some (exp (log mn + (i : Rat) * d))) ∧
+    ((∀ y, log (exp y) = y) →
+      ∀ i, i + 1 < steps → ∃ a b, l[i]? = some a ∧ l[i + 1]? = some b ∧ log b - log a = d) := by
+  intro l d
+  have hcond : ¬ (steps < 2 ∨ mn = mx) := by rintro (h | h); omega; exact hne h
+  have hl : l = (List.range steps).map (fun (i : Nat) => exp (log mn + (i : Rat) * d)) := by
+    simp only [l, d]; unfold logSpace; rw [if_neg hcond, hq]
+  have hget : ∀ i, i < steps → l[i]? = some (exp (log mn + (i : Rat) * d)) := by
+    intro i hi; rw [hl]; simp [hi]
+  have hs1 : ((steps : Rat) - 1) ≠ 0 := by
+    have : (2 : Rat) ≤ (steps : Rat) := by exact_mod_cast hs
+    intro h; linarith
+  refine ⟨by rw [hl]; simp, ?_, ?_, hget, ?_⟩
+  · rw [hget 0 (by omega)]; simp [hmn]
+  · rw [hget (steps - 1) (by omega)]
+    congr 1
+    have : ((steps - 1 : Nat) : Rat) = (steps : Rat) - 1 := by
+      rw [Nat.cast_sub (by omega)]; simp
+    rw [this]
+    have : log mn + ((steps : Rat) - 1) * d = log mx := by
+      simp only [d]; field_simp; ring
+    rw [this, hmx]
+  · intro hle i hi
+    refine ⟨_, _, hget i (by omega), hget (i + 1) hi, ?_⟩
+    rw [hle, hle]; push_cast; ring
+
+example : ∃ (exp log : Rat → Rat) (mn mx : Rat), mn ≠ mx ∧ exp (log mn) = mn ∧ exp (log mx) = mx ∧
+    log (mx / mn) = log mx - log mn ∧ (∀ y, log (exp y) = y) :=
+  ⟨id, id, 2, 4, by decide, rfl, rfl, by simp only [id]; norm_num, fun _ => rfl⟩
+
+/-! ## 4. Locate_Closest_Location -/
+
+/-- an unsorted list is rejected with the diagnostic. -/
+theorem locateClosest_unsorted (l : List Rat) (t : Rat) (h : isSorted l = false) :
+    locateClosest l t = .error .diag := by
+  unfold locateClosest; simp [h]
+
+/-- every non-empty sorted (non-strictly) list, every target: the returned index is valid and no
+    element is strictly nearer to the target (covers below / above / ties / duplicates). -/
+theorem locateClosest_nearest (l : List Rat) (t : Rat) (hne : l ≠ []) (hs : isSorted l = true) :
+    ∃ (i : Nat) (hi : i < l.length), locateClosest l t = .ok i ∧
+      ∀ (j : Nat) (hj : j < l.length), |l[i] - t| ≤ |l[j] - t| := by
+  have hlen : 0 < l.length := List.length_pos_iff.mpr hne
+  have hub := upperBound_le_length l t
+  unfold locateClosest
+  simp only [hs, Bool.not_true, Bool.false_eq_true, if_false]
+  by_cases h1 : upperBound l t = l.length
+  · -- target at or above the last element
+    simp only [h1, if_true]
+    refine ⟨l.length - 1, by omega, rfl, ?_⟩
+    intro j hj
+    have a1 : l[l.length - 1] ≤ t := upperBound_below l t _ (by omega) (by omega)
+    have a2 : l[j] ≤ l[l.length - 1] := sorted_getElem_le hs (by omega) (by omega)
+    rw [abs_of_nonpos (by linarith), abs_of_nonpos (by linarith)]; linarith
+  · simp only [h1, if_false]
+    have hlt : upperBound l t < l.length := by omega
+    have hab := upperBound_above l t hlt
+    by_cases h0 : upperBound l t = 0
+    · -- target below the first element
+      simp only [h0, if_true]
+      refine ⟨0, hlen, rfl, ?_⟩
+      intro j hj
+      have a1 : t < l[0] := by simpa [h0] using hab
+      have a2 : l[0] ≤ l[j] := sorted_getElem_le hs (by omega) hj
+      rw [abs_of_nonneg (by linarith), abs_of_nonneg (by linarith)]; linarith
+    · simp only [h0, if_false]
+      set idx := upperBound l t with hidx
+      have hb : l[idx - 1] ≤ t := upperBound_below l t _ (by omega) (by omega)
+      have e1 : l.getD (idx - 1) 0 = l[idx - 1] := by
+        rw [List.getD_eq_getElem?_getD, List.getElem?_eq_getElem (by omega)]; rfl
+      have e2 : l.getD idx 0 = l[idx] := by
+        rw [List.getD_eq_getElem?_getD, List.getElem?_eq_getElem (by omega)]; rfl
+      rw [e1, e2, rabs_eq_abs, rabs_eq_abs]
+      have d1 : |l[idx - 1] - t| = t - l[idx - 1] := by rw [abs_of_nonpos (by linarith)]; ring
+      have d2 : |l[idx] - t| = l[idx] - t := abs_of_nonneg (by linarith)
+      -- every element: left part is ≤ l[idx-1] ≤ t, right part ≥ l[idx] > t
+      have key : ∀ (j : Nat) (hj : j < l.length),
+          (j < idx → |l[j] - t| = t - l[j] ∧ l[j] ≤ l[idx - 1]) ∧
+          (idx ≤ j → |l[j] - t| = l[j] - t ∧ l[idx] ≤ l[j]) := by
+        intro j hj
+        constructor
+        · intro hji
+          have : l[j] ≤ l[idx - 1] := sorted_getElem_le hs (by omega) (by omega)
+          exact ⟨by rw [abs_of_nonpos (by linarith)]; ring, this⟩
+        · intro hji
+          have : l[idx] ≤ l[j] := sorted_getElem_le hs hji hj
+          exact ⟨abs_of_nonneg (by linarith), this⟩
+      by_cases hd : |l[idx - 1] - t| < |l[idx] - t|
+      · rw [if_pos hd]
+        refine ⟨idx - 1, by omega, rfl, ?_⟩
+        intro j hj
+        rw [d1, d2] at hd
+        rw [d1]
+        by_cases hji : j < idx
+        · obtain ⟨e, le⟩ := (key j hj).1 hji; rw [e]; linarith
+        · obtain ⟨e, le⟩ := (key j hj).2 (by omega); rw [e]; linarith
+      · rw [if_neg hd]
+        refine ⟨idx, hlt, rfl, ?_⟩
+        intro j hj
+        rw [d1, d2] at hd
+        rw [d2]
+        by_cases hji : j < idx
+        · obtain ⟨e, le⟩ := (key j hj).1 hji; rw [e]; linarith
+        · obtain ⟨e, le⟩ := (key j hj).2 (by omega); rw [e]; linarith
+
+example : isSorted [1, 2, 2, 5] = true ∧ locateClosest [1, 2, 2, 5] (7/2) = .ok 3 := by decide +kernel
+
+/-! ## 5. List templates -/
+
+section Lists
+variable {α : Type}
+
+/-- rectangular, non-empty outer list: the result has `m` rows of length `n`, and
+    `r[j][i] = ls[i][j]`. -/
+theorem transposeLists_spec [Inhabited α] (ls : List (List α)) (m : Nat) (hne : ls ≠ [])
+    (hrect : ∀ l ∈ ls, l.length = m) :
+    ∃ r, transposeLists ls = .ok r ∧ r.length = m ∧ (∀ row ∈ r, row.length = ls.length) ∧
+      ∀ i j, i < ls.length → j < m →
+        ∃ x, (ls[i]?.bind (·[j]?)) = some x ∧ (r[j]?.bind (·[i]?)) = some x := by
+  cases ls with
+  | nil => exact absurd rfl hne
+  | cons l0 tl =>
+    have hm : l0.length = m := hrect l0 (by simp)
+    have hall : (l0 :: tl).all (fun l => decide (l.length = l0.length)) = true := by
+      simp only [List.all_eq_true, decide_eq_true_eq]
+      intro l hl; rw [hrect l hl, hm]
+    refine ⟨(List.range m).map (fun j => (l0 :: tl).map (fun l => l.getD j default)), ?_, ?_, ?_, ?_⟩
+    · unfold transposeLists
+      rw [hm] at hall
+      simp only [hm, hall, if_true]
+    · simp
+    · intro row hrow
+      simp only [List.mem_map, List.mem_range] at hrow
+      obtain ⟨j, _, rfl⟩ := hrow
+      simp
+    · intro i j hi hj
+      have hlen : ((l0 :: tl)[i]).length = m := hrect _ (List.getElem_mem hi)
+      refine ⟨((l0 :: tl)[i])[j], ?_, ?_⟩
+      · rw [List.getElem?_eq_getElem hi]
+        simp only [Option.bind_some]
+        exact List.getElem?_eq_getElem (by omega)
+      · rw [List.getElem?_eq_getElem (by simpa using hj)]
+        simp only [List.getElem_map, List.getElem_range, Option.bind_some]
+        rw [List.getElem?_eq_getElem (by simpa using hi)]
+        simp only [List.getElem_map, List.getD_eq_getElem?_getD]
+        rw [List.getElem?_eq_getElem (by omega)]
+        rfl
+
+/-- ragged input (some row differs in length from the first) → diagnostic. -/
+theorem transposeLists_ragged [Inhabited α] (ls : List (List α))
+    (h : ∃ l ∈ ls, l.length ≠ (ls.headD []).length) : transposeLists ls = .error .diag := by
+  cases ls with
+  | nil => rfl
+  | cons l0 tl =>
+    obtain ⟨l, hl, hne⟩ := h
+    unfold transposeLists
+    have : ¬ ((l0 :: tl).all (fun l => decide (l.length = l0.length)) = true) := by
+      simp only [List.all_eq_true, decide_eq_true_eq]
+      intro hall
+      exact hne (hall l hl)
+    simp only [this]
+    rfl
+
+/-- an empty outer list: the C++ reads `lists[0]` out of bounds; the model reports a diagnostic
+    and the driver answers `undef` (not compared). -/
+theorem transposeLists_empty [Inhabited α] : transposeLists ([] : List (List α)) = .error .diag := rfl
+
+example : transposeLists [[1, 2, 3], [4, 5, 6]] = .ok [[1, 4], [2, 5], [3, 6]] := by decide
+example : [[1, 2, 3], [4, 5, 6]] ≠ [] ∧ ∀ l ∈ [[1, 2, 3], [4, 5, 6]], l.length = 3 := by decide
+example : ∃ l ∈ [[1, 2, 3], [4, 5]], l.length ≠ (([[1, 2, 3], [4, 5]] : List (List Nat)).headD []).length :=
+  ⟨[4, 5], by decide, by decide⟩
+
+/-- `Sub_List(v,i1,i2)`: the inclusive slice `v[a..b]`, `a = max 0 i1`, `b = min i2 (len−1)`;
+    empty for an empty source or `a > b`. -/
+theorem subList_spec (v : List α) (i1 : Int) (i2 : Nat) :
+    let a := i1.toNat
+    let b := min i2 (v.length - 1)
+    ((v = [] ∨ b < a) → subList v i1 i2 = []) ∧
+    (v ≠ [] → a ≤ b →
+      subList v i1 i2 = (v.drop a).take (b - a + 1) ∧
+      (subList v i1 i2).length = b - a + 1 ∧
+      ∀ k, k ≤ b - a → a + k < v.length ∧ (subList v i1 i2)[k]? = v[a + k]?) := by
+  intro a b
+  have ha : (if i1 < 0 then 0 else i1.toNat) = a := by
+    split
+    · simp only [a]; omega
+    · rfl
+  constructor
+  · rintro (rfl | hab)
+    · simp [subList]
+    · unfold subList
+      simp only [ha]
+      split
+      · rfl
+      · rename_i hv
+        have hb : (if i2 ≥ v.length then v.length - 1 else i2) = b := by
+          split <;> simp only [b] <;> omega
+        simp only [hb]
+        rw [if_pos hab]
+  · intro hv hab
+    have hv' : v.length ≠ 0 := by simpa using hv
+    have hb : (if i2 ≥ v.length then v.length - 1 else i2) = b := by
+      split <;> simp only [b] <;> omega
+    have hblt : b < v.length := by simp only [b]; omega
+    have heq : subList v i1 i2 = (v.drop a).take (b - a + 1) := by
+      unfold subList
+      simp only [ha, hb, if_neg hv']
+      rw [if_neg (by omega)]
+    refine ⟨heq, ?_, ?_⟩
+    · rw [heq]; simp; omega
+    · intro k hk
+      refine ⟨by omega, ?_⟩
+      rw [heq, List.getElem?_take_of_lt (by omega), List.getElem?_drop]
+
+example : subList [10, 11, 12, 13] (-2) 7 = [10, 11, 12, 13] ∧ subList [10, 11, 12, 13] 1 2 = [11, 12] ∧
+    subList [10, 11, 12, 13] 3 1 = [] := by decide
+
+theorem combine_eq_append (a b : List α) : combine a b = a ++ b := rfl
+
+theorem flatten_eq_flatten (v : List (List α)) : flatten v = v.flatten := rfl
+
+variable [DecidableEq α]
+
+/-- `Lists_Equal` decides equality (also of nested lists: `α := List β`). -/
+theorem listsEqual_iff (v1 v2 : List α) : listsEqual v1 v2 = true ↔ v1 = v2 := by
+  unfold listsEqual
+  constructor
+  · intro h
+    split at h
+    · simp at h
+    · rename_i hl
+      simp only [ne_eq, Decidable.not_not] at hl
+      apply List.ext_getElem? 
+      intro i
+      by_cases hi : i < v1.length
+      · simp only [List.all_eq_true, List.mem_range, decide_eq_true_eq] at h
+        exact h i hi
+      · rw [List.getElem?_eq_none (by omega), List.getElem?_eq_none (by omega)]
+  · rintro rfl; simp
+
+/-- `List_Contains` is membership. -/
+theorem listContains_iff (l : List α) (x : α) : listContains l x = true ↔ x ∈ l := by
+  unfold listContains
+  simp only [List.any_eq_true, List.mem_range, decide_eq_true_eq]
+  rw [List.mem_iff_getElem?]
+  constructor
+  · rintro ⟨i, _, h⟩; exact ⟨i, h⟩
+  · rintro ⟨i, h⟩
+    refine ⟨i, ?_, h⟩
+    by_contra hi
+    rw [List.getElem?_eq_none (by omega)] at h
+    cases h
+
+/-- `Find_Indices` returns exactly the positions holding the value … -/
+theorem mem_findIndices_iff (l : List α) (x : α) (i : Nat) :
+    i ∈ findIndices l x ↔ l[i]? = some x := by
+  unfold findIndices
+  simp only [List.mem_filter, List.mem_range, decide_eq_true_eq]
+  constructor
+  · exact fun h => h.2
+  · intro h
+    refine ⟨?_, h⟩
+    by_contra hi
+    rw [List.getElem?_eq_none (by omega)] at h
+    cases h
+
+/-- … in strictly increasing order (hence without repetition). -/
+theorem findIndices_strictly_increasing (l : List α) (x : α) :
+    (findIndices l x).Pairwise (· < ·) := by
+  unfold findIndices
+  exact List.Pairwise.filter _ List.pairwise_lt_range
+
+example : findIndices [5, 7, 5, 5] 5 = [0, 2, 3] := by decide
+
+end Lists
+
+/-! ## 6. Statistics laws -/
+
+theorem sum_perm_invariant {l1 l2 : List Rat} (h : l1.Perm l2) : sum l1 = sum l2 := sum_perm h
+
+theorem mean_perm_invariant {l1 l2 : List Rat} (h : l1.Perm l2) : mean l1 = mean l2 := by
+  unfold mean; rw [sum_perm h, h.length_eq]
+
+/-- `mean (x + c) = mean x + c` (both undefined for empty data). -/
+theorem mean_shift (l : List Rat) (c : Rat) : mean (l.map (· + c)) = (mean l).map (· + c) := by
+  unfold mean
+  simp only [List.length_map]
+  split
+  · rfl
+  · rename_i h
+    have := len_ne h
+    simp only [Option.map_some, sum_map_add_const]
+    congr 1; field_simp
+
+/-- `mean (c·x) = c · mean x`. -/
+theorem mean_scale (l : List Rat) (c : Rat) : mean (l.map (c * ·)) = (mean l).map (c * ·) := by
+  unfold mean
+  simp only [List.length_map]
+  split
+  · rfl
+  · rename_i h
+    have := len_ne h
+    simp only [Option.map_some, sum_map_const_mul]
+    congr 1; field_simp
+
+/-- `variance (x + c) = variance x`. -/
+theorem variance_shift (l : List Rat) (c : Rat) : variance (l.map (· + c)) = variance l := by
+  unfold variance
+  simp only [List.length_map]
+  split
+  · rfl
+  · rename_i h
+    have hn : (l.length : Rat) ≠ 0 := by
+      have : ¬ l.length = 0 := by omega
+      exact_mod_cast this
+    congr 2
+    rw [List.map_map]
+    congr 1
+    apply List.map_congr_left
+    intro x _
+    simp only [Function.comp, sum_map_add_const]
+    field_simp; ring
+
+/-- `variance (c·x) = c² · variance x`. -/
+theorem variance_scale (l : List Rat) (c : Rat) :
+    variance (l.map (c * ·)) = (variance l).map (c ^ 2 * ·) := by
+  unfold variance
+  simp only [List.length_map]
+  split
+  · rfl
+  · rename_i h
+    have hn : (l.length : Rat) ≠ 0 := by
+      have : ¬ l.length = 0 := by omega
+      exact_mod_cast this
+    simp only [Option.map_some]
+    congr 1
+    rw [List.map_map, ← mul_div_assoc, ← sum_map_const_mul']
+    congr 2
+    apply List.map_congr_left
+    intro x _
+    simp only [Function.comp, sum_map_const_mul]
+    field_simp
+
+theorem variance_perm_invariant {l1 l2 : List Rat} (h : l1.Perm l2) : variance l1 = variance l2 := by
+  unfold variance
+  simp only [h.length_eq, sum_perm h]
+  split
+  · rfl
+  · rw [sum_perm (h.map _)]
+
+/-- the median does not depend on the order of the data (`sortRat` agrees on permutations). -/
+theorem median_perm_invariant {l1 l2 : List Rat} (h : l1.Perm l2) : median l1 = median l2 := by
+  unfold median; rw [sortRat_perm h, h.length_eq]
+
+/-- the median commutes with every monotone map that preserves midpoints -/
+theorem median_map_mono (f : Rat → Rat) (hf : ∀ a b, a ≤ b → f a ≤ f b)
+    (hmid : ∀ a b, f ((a + b) / 2) = (f a + f b) / 2) (l : List Rat) :
+    median (l.map f) = (median l).map f := by
+  unfold median
+  simp only [List.length_map]
+  split
+  · rfl
+  · rename_i hn
+    have hl := sortRat_length l
+    rw [sortRat_map_mono f hf]
+    split
+    · rw [getD_map_lt f _ _ (by omega), getD_map_lt f _ _ (by omega)]
+      simp only [Option.map_some, hmid]
+    · rw [getD_map_lt f _ _ (by omega)]
+      simp only [Option.map_some]
+
+/-- `median (x + c) = median x + c`. -/
+theorem median_shift (l : List Rat) (c : Rat) : median (l.map (· + c)) = (median l).map (· + c) :=
+  median_map_mono (· + c) (fun a b h => by simpa using h) (fun a b => by ring) l
+
+/-- … and with every antitone map that preserves midpoints -/
+theorem median_map_anti (f : Rat → Rat) (hf : ∀ a b, a ≤ b → f b ≤ f a)
+    (hmid : ∀ a b, f ((a + b) / 2) = (f a + f b) / 2) (l : List Rat) :
+    median (l.map f) = (median l).map f := by
+  unfold median
+  simp only [List.length_map]
+  split
+  · rfl
+  · rename_i hn
+    have hl := sortRat_length l
+    rw [sortRat_map_anti f hf]
+    split
+    · rename_i hev
+      rw [getD_reverse_map_lt f _ _ (by omega), getD_reverse_map_lt f _ _ (by omega)]
+      simp only [Option.map_some, hmid, hl]
+      have e1 : l.length - 1 - (l.length / 2 - 1) = l.length / 2 := by omega
+      have e2 : l.length - 1 - l.length / 2 = l.length / 2 - 1 := by omega
+      rw [e1, e2, add_comm]
+    · rename_i hodd
+      rw [getD_reverse_map_lt f _ _ (by omega)]
+      simp only [Option.map_some, hl]
+      have e1 : l.length - 1 - l.length / 2 = l.length / 2 := by omega
+      rw [e1]
+
+/-- `median (c·x) = c · median x` for every `c` (negative `c` reverses the order). -/
+theorem median_scale (l : List Rat) (c : Rat) : median (l.map (c * ·)) = (median l).map (c * ·) := by
+  rcases le_total 0 c with hc | hc
+  · exact median_map_mono (c * ·) (fun a b h => mul_le_mul_of_nonneg_left h hc) (fun a b => by ring) l
+  · exact median_map_anti (c * ·) (fun a b h => mul_le_mul_of_nonpos_left h hc) (fun a b => by ring) l
+
+/-- all weights equal to `w ≠ 0`, `n ≥ 2` points: the weighted average is the arithmetic mean and
+    the squared standard error is `variance / n`. -/
+theorem weightedAverage_equal_weights (d : List (Rat × Rat)) (w : Rat) (hw : w ≠ 0)
+    (hn : 2 ≤ d.length) (hall : ∀ p ∈ d, p.2 = w) :
+    ∃ μ v, mean (d.map (·.1)) = some μ ∧ variance (d.map (·.1)) = some v ∧
+      weightedAverage d = some (μ, v / (d.length : Rat)) := by
+  have hn0 : (d.length : Rat) ≠ 0 := by
+    have : ¬ d.length = 0 := by omega
+    exact_mod_cast this
+  have hn1 : (d.length : Rat) - 1 ≠ 0 := by
+    have : (2 : Rat) ≤ (d.length : Rat) := by exact_mod_cast hn
+    intro h; linarith
+  refine ⟨sum (d.map (·.1)) / ((d.map (·.1)).length : Rat),
+    sum ((d.map (·.1)).map (fun x => (x - sum (d.map (·.1)) / ((d.map (·.1)).length : Rat)) *
+      (x - sum (d.map (·.1)) / ((d.map (·.1)).length : Rat)))) / (((d.map (·.1)).length : Rat) - 1),
+    ?_, ?_, ?_⟩
+  · unfold mean; rw [if_neg (by rw [List.length_map]; omega)]
+  · unfold variance; rw [if_neg (by rw [List.length_map]; omega)]
+  · set S := sum (d.map (·.1)) with hS
+    have e1 : sum (d.map (fun p => p.2 * p.1)) = w * S := by
+      rw [hS, ← sum_map_const_mul']; congr 1
+      apply List.map_congr_left; intro p hp; simp [hall p hp]
+    have e2 : sum (d.map (fun p => p.2)) = (d.length : Rat) * w := by
+      rw [← sum_map_const]; congr 1
+      apply List.map_congr_left; intro p hp; exact hall p hp
+    have hws : (d.length : Rat) * w ≠ 0 := mul_ne_zero hn0 hw
+    unfold weightedAverage
+    simp only [e1, e2]
+    rw [if_neg (by rintro (h | h); omega; exact hws h)]
+    have havg : w * S / ((d.length : Rat) * w) = S / (d.length : Rat) := by field_simp
+    have hwavg : (d.length : Rat) * w / (d.length : Rat) = w := by field_simp
+    simp only [havg, hwavg, List.length_map]
+    have s2 : sum (d.map (fun p => (p.2 - w) * (p.2 * p.1 - S / (d.length : Rat) * w))) = 0 := by
+      rw [← sum_map_zero d]; congr 1
+      apply List.map_congr_left; intro p hp; rw [hall p hp]; ring
+    have s3 : sum (d.map (fun p => (p.2 - w) ^ 2)) = 0 := by
+      rw [← sum_map_zero d]; congr 1
+      apply List.map_congr_left; intro p hp; rw [hall p hp]; ring
+    have s1 : sum (d.map (fun p => (p.2 * p.1 - S / (d.length : Rat) * w) ^ 2)) =
+        w ^ 2 * sum ((d.map (·.1)).map (fun x => (x - S / (d.length : Rat)) * (x - S / (d.length : Rat)))) := by
+      rw [List.map_map, ← sum_map_const_mul']; congr 1
+      apply List.map_congr_left; intro p hp; simp only [Function.comp]; rw [hall p hp]; ring
+    rw [s1, s2, s3]
+    congr 2
+    field_simp
+    ring
+
+example : [1, 2, 6].Perm [6, 1, 2] := by decide
+example : weightedAverage [(1, 3), (2, 3), (6, 3)] = some (3, 7 / 3) := by decide +kernel
+example : variance [1, 2, 6] = some 7 := by decide +kernel
 
 end Lp.C19
